@@ -70,6 +70,9 @@ public:
     virtual void execute(const Plan &plan, Run &run) = 0;
     // simpler variants of one op, tried during minimisation
     virtual void shrinkOp(const Op &op, std::vector<Op> &out) { (void)op; (void)out; }
+    // true for an oracle that may miss what it saw before (ThreadSanitizer keeps a bounded, randomly evicted access history per
+    // memory cell): then only the event log has to repeat, and a violation class has to reproduce in some of several tries
+    virtual bool verdictMayFlicker() { return false; }
     virtual int recheckEvery() { return 40; }   // every Nth run of a worker is executed twice in-process and compared
     virtual int quickRuns() { return 3000; }
     virtual int quickSeconds() { return 75; }       // hard cap for the quick tier
@@ -401,8 +404,8 @@ struct Minimiser
     {
         if(evals >= maxEvals || nowSec() > deadline) { maxEvals = evals; return false; }
         ++evals;
-        EvalResult r = evalInChild(c, p, cpuSec, sanitized);
-        return r.v.set && r.v.cls() == cls;
+        for(int tries = c.verdictMayFlicker() ? 3 : 1; tries > 0; --tries) { EvalResult r = evalInChild(c, p, cpuSec, sanitized); if(r.v.set && r.v.cls() == cls) return true; }
+        return false;
     }
     void run(Plan &plan)
     {
@@ -496,7 +499,7 @@ static void workerLoop(Check &c, int wfd, uint64_t baseSeed, bool thorough, uint
             armWatchdog(c.cpuBudgetSec());
             Run again; c.execute(plan, again);
             disarmWatchdog();
-            bool same = again.v.set == run.v.set && again.log.h == run.log.h && (!run.v.set || (again.v.tag == run.v.tag && again.v.sig == run.v.sig));
+            bool same = again.log.h == run.log.h && (c.verdictMayFlicker() || (again.v.set == run.v.set && (!run.v.set || (again.v.tag == run.v.tag && again.v.sig == run.v.sig))));
             if(!same) { snprintf(line, sizeof line, "M %llu\n", (unsigned long long)idx); safeWrite(wfd, line); }
             else counters["_determinism_rechecks"] += 1;
         }
@@ -541,6 +544,7 @@ static int replayMode(Check &c, const char *path)
         size_t g = text.find("# generators "); if(g != std::string::npos) { std::string h = text.substr(g + 13, text.find('\n', g) - g - 13); if(h != VERIF_GEN_HASH) printf("NOTE: this plan was recorded with generator version %s, the harness now has %s: content derived from seeds inside the plan may differ\n", h.c_str(), VERIF_GEN_HASH); }
     }
     EvalResult r = evalInChild(c, plan, c.cpuBudgetSec(), g_sanitized);
+    for(int tries = 0; c.verdictMayFlicker() && !r.v.set && !r.harnessError && tries < 3; ++tries) r = evalInChild(c, plan, c.cpuBudgetSec(), g_sanitized);
     if(r.harnessError) return 2;
     if(r.v.set)
     {
@@ -772,6 +776,7 @@ static int driverMain(Check &c, int argc, char **argv)
         // determinism gate 1: same plan, two forked executions, same class
         EvalResult r1 = evalInChild(c, plan, c.cpuBudgetSec(), g_sanitized);
         EvalResult r2 = evalInChild(c, plan, c.cpuBudgetSec(), g_sanitized);
+        if(c.verdictMayFlicker()) for(int tries = 0; tries < 6 && !(r1.v.set && r2.v.set && r1.v.cls() == it->first && r2.v.cls() == it->first); ++tries) { EvalResult r = evalInChild(c, plan, c.cpuBudgetSec(), g_sanitized); if(!(r1.v.set && r1.v.cls() == it->first)) r1 = r; else r2 = r; }
         if(!r1.v.set || !r2.v.set || r1.v.cls() != it->first || r2.v.cls() != it->first)
         {
             printf("HARNESS-ERROR: class %s at index %llu did not reproduce deterministically (got '%s' / '%s')\n", it->first.c_str(),
